@@ -95,6 +95,30 @@ def make_world(p, rule, config, it=None):
     return vec, els
 
 
+def make_world_n(p, rule, config, it):
+    """Same as make_world for a vector of len(config) switches (1..4): the rule must not depend on the vector's size."""
+    from .driverworld import _reachable_objs, build_drivers
+    names = ["A", "B", "C", "D"][: len(config)]
+    els_src = "\n".join(f"                    {n.lower()}=properties.Switch({n!r}, default={v!r})," for n, v in zip(names, config))
+    src = _SWITCH_SRC.split("                elements=dict(")[0] + "                elements=dict(\n" + els_src + "\n                ),\n            )\n        ),\n    )\n"
+    src = src.format(rule=rule)
+    saved_cw = it.opts.get("closed_world")
+    it.opts["closed_world"] = True
+    try:
+        drivers = build_drivers(it, p, names=(("DevA", "DEVA"),), src=src)
+    finally:
+        if saved_cw is None:
+            it.opts.pop("closed_world", None)
+        else:
+            it.opts["closed_world"] = saved_cw
+    by = {o.label: o for o in _reachable_objs(drivers["DEVA"])}
+    vec = by.get("vec:DEVA.SW")
+    els = [by.get(f"el:DEVA.SW.{n}") for n in names]
+    if vec is None or any(e is None for e in els):
+        raise Undecided(f"the constructed driver does not hold the switch vector SW with elements {names}")
+    return vec, els
+
+
 def oracle_step(rule, config, idx, written):
     cfg = list(config)
     others_on = any(v == ON for j, v in enumerate(cfg) if j != idx)
@@ -216,6 +240,55 @@ def rule_step(ctx):
     if not bad:
         ctx.holds("C09.STEP", setter.short, f"{n} rows (3 rules x 8 states x 3 switches x 4 written values) agree with the rule table; publication after all stores", fi=setter)
     ctx.exhaustive_domains.append("3 rules x 2^3 configurations x 3 written switches x {On, Off, invalid, None}")
+
+
+def rule_sizes(ctx):
+    """The rule holds for vectors of every size, in particular the degenerate ones: a OneOfMany vector with a single
+    switch cannot be switched off, an invalid value is rejected whatever the size."""
+    p = ctx.p
+    _init(p)
+    sv, sw = _classes(p)
+    setter = sw.find_setter("value")
+    pol = _inline_policy(p)
+    n = bad = 0
+    for size in (1, 2, 4):
+        for rule in ("OneOfMany", "AtMostOne", "AnyOfMany"):
+            for config in itertools.product((ON, OFF), repeat=size):
+                if size == 4 and sum(1 for v in config if v == ON) > 2:
+                    continue
+                for idx in range(size):
+                    for written in (ON, OFF, "Maybe"):
+                        n += 1
+
+                        def run(it: Interp):
+                            vec, els = make_world_n(p, rule, config, it)
+                            it.els = els
+                            return it.run_function(Fn(setter, els[idx]), [Const(written)], {})
+
+                        paths = explore(p, run, {"inline": pol, "assert_forks": True, "max_depth": 8})
+                        ctx.paths_enumerated += len(paths)
+                        nm = ["A", "B", "C", "D"][:size]
+                        row = f"{size}-switch vector rule={rule} state={dict(zip(nm, config))} write {nm[idx]}={written}"
+                        if len(paths) != 1:
+                            ctx.undecided("C09.SIZES", setter.short, f"{len(paths)} paths for a fully concrete row [{row}]", fi=setter)
+                            bad += 1
+                            continue
+                        pa = paths[0]
+                        after = _state(pa.interp.els)
+                        if written not in (ON, OFF):
+                            if pa.outcome != "raise" or after != tuple(config):
+                                ctx.violated("C09.SIZES", setter.short, f"[{row}] an invalid switch value is accepted or changes state", fi=setter, text=f"invalid:{size}", witness=row)
+                                bad += 1
+                            continue
+                        exp = oracle_step(rule, config, idx, written)
+                        if pa.outcome != "return" or after != exp:
+                            got = dict(zip(nm, after)) if pa.outcome == "return" else "an exception"
+                            ctx.violated("C09.SIZES", setter.short, f"[{row}] leaves {got}, the rule prescribes {dict(zip(nm, exp))}", fi=setter, text=f"effect:{size}:{rule}:{written}", witness=row)
+                            bad += 1
+    ctx.counters["C09.SIZES:rows"] = n
+    if not bad:
+        ctx.holds("C09.SIZES", setter.short, f"{n} rows over vectors of 1, 2 and 4 switches agree with the rule table", fi=setter)
+    ctx.exhaustive_domains.append("vector sizes 1, 2, 4 (<= 2 On) x 3 rules x configurations x written switch x {On, Off, invalid}")
 
 
 def _aux_state(vec, els):
@@ -467,6 +540,7 @@ def rule_gate(ctx):
 
 RULES = [
     ("C09.STEP", rule_step, "induction step: every single write leaves the vector in the state the rule table prescribes; invalid values raise; publication after stores"),
+    ("C09.SIZES", rule_sizes, "the same step table for vectors of 1, 2 and 4 switches (degenerate sizes included)"),
     ("C09.REACH", rule_reach, "closure of reachable (values, auxiliary state) states under single writes: every transition follows the rule table"),
     ("C09.BOOL", rule_bool, "bool_value maps to On/Off through the value property"),
     ("C09.BULK", rule_bulk, "selected_value(s) setters = rule-consistent sequence of single writes over all elements"),
